@@ -79,8 +79,6 @@ func corpusCase(c *core.Case) {
 	ok := true
 	runFull := func(name string, keys [][]byte, cf cfg, script func(h *hist)) {
 		h := corpusHist(c, r, name, keys, cf)
-		before := len(h.trace)
-		_ = before
 		done := false
 		h.guard(func() {
 			script(h)
